@@ -1074,6 +1074,8 @@ bool Process::Arguments::read(int& character, String& argument)
           for(const Option* opt = options; opt < optionsEnd; ++opt)
             if(opt->name && String::compare(opt->name, arg, argLen) == 0 && !opt->name[argLen])
             {
+              if(end && !(opt->flags & Process::argumentFlag))
+                break; // the option does not take an argument: report the whole string as unknown
               const char* argName = arg;
               character = opt->character;
               arg += end ? argLen + 1 : argLen;
